@@ -134,6 +134,7 @@ func TestC08(t *testing.T) {
 			addCollidingDefs(rt, c, f, "enum")
 		}
 		cs := caseOf(baseConfig(), []string{f.RelPath}, f)
+		countShapes(c, f, cs.Config)
 		probs, n, st := enumConstCheck(cs, f)
 		c.Count("static." + st)
 		c.CountN("static.string_enums_checked", n)
